@@ -22,7 +22,8 @@
      Dev_UndoEventNoop               undoAddEvent does not pop the event from Account.events
      Dev_RevertVersionGapPanics      RevertToSnapshot demands contiguous versions, but undone versions are never
                                      handed out again: revert-inner, write again, revert-outer panics
-     Dev_UndoFirstEquityPanics       undoEquity rejects the nil old value of an equity that did not exist *)
+     Dev_UndoFirstEquityPanics       undoEquity rejects the nil old value of an equity that did not exist
+   (merge / publish deviations and the Finalise / Save deviations are described at their operators below) *)
 EXTENDS Naturals, Sequences, FiniteSets, TLC
 
 Has(r, f) == f \in DOMAIN r
